@@ -12,20 +12,25 @@ REPO = os.environ.get("VERIF_REPO", "/repo")
 # stages marked supplementary: a violation there fails the check like any other, but an
 # inconclusive supplementary stage (tool could not run, budget exhausted) is only recorded in the
 # evidence: the deciding oracle of those properties is the native monitor
-SUPPLEMENTARY = {"miri", "nohooks", "stdbuild", "constrained", "fvbuild"}
+SUPPLEMENTARY = {"miri", "nohooks", "stdbuild", "constrained", "fvbuild", "fuzz"}
+
+# coverage-guided fuzzing (libFuzzer + AddressSanitizer through cargo-fuzz), thorough tier:
+# property -> (fuzz target, seconds)
+FUZZ = {"C02": ("verify_diff", 420), "C06": ("verify_diff", 420), "C11": ("sign_total", 420)}
+ALG_ORDER = ["sha256_256", "sha256_192", "sha256_128", "shake256_256", "shake256_192", "shake256_128"]
 
 PROPS = {
     "C01": {"level": "exploration", "stages": ["native", "constrained", "fvbuild"]},
-    "C02": {"level": "exploration", "stages": ["native", "nohooks", "fvbuild"]},
+    "C02": {"level": "exploration", "stages": ["native", "nohooks", "fvbuild"], "thorough_extra": ["fuzz"]},
     "C03": {"level": "exploration", "stages": ["native", "fvbuild"]},
     "C04": {"level": "fault_enumeration", "stages": ["native", "fvbuild"]},
     "C05": {"level": "exploration", "stages": ["native"]},
-    "C06": {"level": "exploration", "stages": ["native", "nohooks", "constrained", "miri"]},
+    "C06": {"level": "exploration", "stages": ["native", "nohooks", "constrained", "miri"], "thorough_extra": ["fuzz"]},
     "C07": {"level": "exploration", "stages": ["native", "fvbuild"]},
     "C08": {"level": "exploration", "stages": ["native", "constrained"]},
     "C09": {"level": "exploration", "stages": ["native", "fvbuild"]},
     "C10": {"level": "exploration", "stages": ["native", "constrained"]},
-    "C11": {"level": "fault_enumeration", "stages": ["native", "nohooks", "constrained", "miri"]},
+    "C11": {"level": "fault_enumeration", "stages": ["native", "nohooks", "constrained", "miri"], "thorough_extra": ["fuzz"]},
     "C12": {"level": "exploration", "stages": ["native"], "thorough_extra": ["miri"]},
     "C13": {"level": "exploration", "stages": ["native"]},
     "C14": {"level": "exploration", "stages": ["c14"]},
@@ -237,6 +242,96 @@ class Run:
         if c != 0 or not os.path.exists(res):
             return {"inconclusive": [f"driver of the fast_verify build failed (exit {c}): " + text[-400:]]}
         return json.load(open(res))
+
+    def fuzz_seed_corpus(self, target, cdir):
+        """seed inputs: verify_diff from the corpus the native C06 run exports (valid and hostile
+        triples of small signatures), sign_total from hand-made key files"""
+        os.makedirs(cdir, exist_ok=True)
+        n = 0
+        if target == "verify_diff":
+            src = os.path.join(self.results, "C06-miri-corpus.txt")
+            if not os.path.exists(src):
+                hbsmon = self.build_hbsmon()
+                sh([hbsmon, "C06", "--tier", "quick", "--seed", str(self.seed), "--out", os.path.join(self.results, "C06-for-fuzz.json")], cwd=self.root, env=self.env, timeout=1800)
+            if os.path.exists(src):
+                for line in open(src):
+                    f = line.split()
+                    if len(f) != 6 or f[0] not in ALG_ORDER:
+                        continue
+                    msg, sig, pk = [b"" if x == "-" else bytes.fromhex(x) for x in f[3:6]]
+                    if len(msg) > 255 or len(pk) > 127:
+                        continue
+                    nn = {"256": 32, "192": 24, "128": 16}[f[0].split("_")[1]]
+                    sel = 0 if len(pk) == 28 + nn else 0x80 | len(pk)
+                    open(os.path.join(cdir, f"seed-{n}"), "wb").write(bytes([ALG_ORDER.index(f[0]), len(msg), sel]) + msg + pk + sig)
+                    n += 1
+        else:
+            for ai, name in enumerate(ALG_ORDER):
+                nn = {"256": 32, "192": 24, "128": 16}[name.split("_")[1]]
+                for params in (b"\x11", b"\x12\x11", b"\x11\x12\x11", b"\x51", b"\x11" * 8, b"\x13"):
+                    for counter in (0, 1, 3):
+                        key = counter.to_bytes(8, "big") + params + b"\xff" * (8 - len(params)) + bytes((7 * i + ai) & 0xff for i in range(nn))
+                        for aux in (None, bytes(200)):
+                            hdr = bytes([ai, len(key), 255 if aux is None else len(aux) // 4, n & 1])
+                            open(os.path.join(cdir, f"seed-{n}"), "wb").write(hdr + key + (aux or b"") + b"fuzz message")
+                            n += 1
+        return n
+
+    def stage_fuzz(self):
+        """libFuzzer (coverage-guided) + AddressSanitizer on a harness target, time-boxed"""
+        target, seconds = FUZZ[self.prop]
+        seconds = int(os.environ.get("VERIF_FUZZ_SECONDS", seconds))
+        fz = os.path.join(self.harness, "fz")
+        work = os.path.join(self.root, "target", "fuzz", f"{self.prop}-{target}")
+        shutil.rmtree(work, ignore_errors=True)
+        cdir, adir = os.path.join(work, "corpus"), os.path.join(work, "artifacts")
+        os.makedirs(adir, exist_ok=True)
+        code, out = sh(["cargo", "+nightly", "fuzz", "build", target], cwd=fz, timeout=3000)
+        if code != 0:
+            return {"inconclusive": ["cargo fuzz build failed: " + out[-400:]]}
+        seeds = self.fuzz_seed_corpus(target, cdir)
+        t0 = time.time()
+        code, out = sh(["cargo", "+nightly", "fuzz", "run", target, cdir, "--", f"-max_total_time={seconds}", "-timeout=20", "-rss_limit_mb=6000", "-fork=12", "-ignore_crashes=1", "-ignore_timeouts=1", "-ignore_ooms=1",
+                        f"-artifact_prefix={adir}/", f"-seed={self.seed}", "-max_len=80000", "-len_control=0"], cwd=fz, timeout=seconds + 900)
+        doc = {"evaluations": 0, "distinct_nontrivial": 0, "samples": [], "violations": [], "inconclusive": [], "notes": [], "counters": {"fuzz_seed_inputs": seeds, "fuzz_seconds": int(time.time() - t0)},
+               "rule": f"coverage-guided fuzzing (libFuzzer, AddressSanitizer, 12 forked workers, {seconds} s) of harness target {target}, seeded with {seeds} inputs; evaluations = executions reported by libFuzzer, distinct_nontrivial = inputs libFuzzer kept because they reached new coverage",
+               "assumptions": ["a slow unit or an out-of-memory report of the fuzzer is not a verdict"]}
+        import re
+        execs = [int(x) for x in re.findall(r"#(\d+): cov:", out)] + [int(x) for x in re.findall(r"stat::number_of_executed_units: (\d+)", out)]
+        doc["evaluations"] = max(execs) if execs else 0
+        covs = [int(x) for x in re.findall(r"cov: (\d+)", out)]
+        doc["counters"]["fuzz_coverage_edges"] = max(covs) if covs else 0
+        try:
+            doc["distinct_nontrivial"] = max(0, len(os.listdir(cdir)) - seeds)
+        except OSError:
+            pass
+        binp = os.path.join(fz, "fuzz", "target", "x86_64-unknown-linux-gnu", "release", target)
+        seen = set()
+        for a in sorted(os.listdir(adir)):
+            path = os.path.join(adir, a)
+            if not a.startswith("crash-"):
+                doc["notes"].append(f"fuzzer artifact {a} (slow unit / oom): not a verdict")
+                continue
+            c2, o2 = sh([binp, path], cwd=fz, timeout=120)
+            m = re.search(r"panicked at ([^\n]*):\n?([^\n]*)", o2)
+            where = (m.group(1) if m else "?").replace("/repo/", "")
+            what = (m.group(2) if m else o2[-200:]).strip()
+            if "AddressSanitizer" in o2 and not m:
+                where, what = "AddressSanitizer", [l for l in o2.splitlines() if "ERROR: AddressSanitizer" in l][:1][0] if "ERROR: AddressSanitizer" in o2 else "report"
+            kind = "disagreement" if "DISAGREE" in what else ("protocol" if "PROTOCOL" in what else "panic")
+            key = f"{self.prop}:fuzz:{kind}:{where.split(':')[0]}:{where.split(':')[1] if ':' in where else ''}" if kind == "panic" else f"{self.prop}:fuzz:{kind}:{what[:80]}"
+            if key in seen:
+                continue
+            seen.add(key)
+            data = open(path, "rb").read()
+            doc["violations"].append({"key": key, "what": f"fuzz target {target}: {what[:300]} (at {where})", "count": 1,
+                                      "replay": {"fuzz_target": target, "input": data.hex() if len(data) <= 200000 else None, "artifact": path}})
+        if doc["evaluations"] == 0:
+            doc["inconclusive"].append("the fuzzer reported no executions: " + out[-300:])
+        if len(doc["samples"]) == 0:
+            kept = sorted(os.listdir(cdir))[:2] if os.path.isdir(cdir) else []
+            doc["samples"] = [{"fuzz_input_hex": open(os.path.join(cdir, k), "rb").read()[:120].hex()} for k in kept]
+        return doc
 
     def stage_stdbuild(self):
         """the same driver against the library built with its `std` feature (the configuration in
@@ -631,6 +726,21 @@ class Run:
         reqs = self.replay_requests(wit.get("case"))
         print(f"replay of {self.replay}: property={wit.get('property')} key={wit.get('key')}")
         print(f"  recorded: {str(wit.get('what'))[:400]}")
+        case = wit.get("case") or {}
+        if isinstance(case, dict) and case.get("fuzz_target") and case.get("input"):
+            fz = os.path.join(self.harness, "fz")
+            code, out = sh(["cargo", "+nightly", "fuzz", "build", case["fuzz_target"]], cwd=fz, timeout=3000)
+            if code != 0:
+                raise Inconclusive("cargo fuzz build failed: " + out[-300:])
+            tmp = os.path.join(self.results, "replay-fuzz-input")
+            open(tmp, "wb").write(bytes.fromhex(case["input"]))
+            c2, o2 = sh([os.path.join(fz, "fuzz", "target", "x86_64-unknown-linux-gnu", "release", case["fuzz_target"]), tmp], cwd=fz, timeout=300)
+            print(o2[-1500:])
+            if c2 != 0:
+                print(f"VIOLATION property={self.prop} replay={self.replay}")
+                return 1
+            print(f"OK property={self.prop} replay: the fuzz target runs this input without a crash now")
+            return 0
         if not reqs:
             print("  the witness does not carry a self-contained case (build-configuration, schedule or abbreviated input): re-running the whole check with the recorded seed and tier instead")
             self.seed = int(wit.get("seed", self.seed)); self.tier = wit.get("tier", self.tier)
